@@ -10,7 +10,7 @@ PROP = Property(
     coq_targets=["Extract/Extract_Wire.vo"],
     engines=[Engine(name="wire", c_srcs=["harness/wire_drv.c"],
                     ml_srcs=["ocaml/gen/WireModel.ml", "ocaml/wire_drv.ml"],
-                    gen=dnsgen.gen_c03, n_quick=10000, n_thorough=120000, sep=";")],
+                    gen=dnsgen.gen_c03, n_quick=10000, n_thorough=120000, sep=";", timeout=600)],
     trusted_base=["Coq 8.16.1 kernel + coqc (vm_compute; no native_compute)",
                   "extraction (ExtrOcamlBasic only, no Extract Constant) + OCaml 4.13.1",
                   "coq/Wire/Roundtrip.v record_eqb + Escape.v unescape (what 'equal field by field' means: names as label sequences)",
